@@ -144,6 +144,11 @@ impl<R: Read + Seek> ReadBox<&mut R> for IlstItemBox {
                     "ilst item box contains a box with a larger size than it",
                 ));
             }
+            if s == 0 {
+                return Err(Error::InvalidData(
+                    "ilst item box contains a box with size 0",
+                ));
+            }
 
             match name {
                 BoxType::DataBox => {
